@@ -261,7 +261,7 @@ func (e *Engine) callEffects(fc *FnCtx, c *ast.CallExpr) callEff {
 			return callEff{heap: heap, objs: true}
 		}
 	}
-	if oc := fc.findOnCall(name, pkgPath, kind, false, c); oc != nil {
+	if oc := fc.findOnCall(name, pkgPath, kind, false, c); oc != nil && !oc.Also {
 		return callEff{heap: !oc.NoHavoc, objs: !oc.NoHavoc}
 	}
 	return callEff{heap: true, objs: true}
@@ -498,13 +498,13 @@ func (fc *FnCtx) entryState() *State {
 			fc.collectRegions(target, &leaves)
 		}
 		fc.collectRegions(v, &leaves)
-		st.vars[p] = v
-		fc.entryVars[name] = v
 		if !(fc.contract != nil && fc.contract.MayAlias) {
 			// the offset of a slice inside its backing array cannot be observed by Go code; since distinct
 			// parameters are assumed not to share a backing array, taking it as 0 loses no behaviour
-			fc.zeroOffsets(st, v, 0)
+			v = fc.zeroOffsets(st, v, 0)
 		}
+		st.vars[p] = v
+		fc.entryVars[name] = v
 	}
 	// every pre-existing region is below nextR0; distinct slice leaves do not alias (unless mayalias)
 	for _, r := range leaves {
@@ -585,7 +585,7 @@ func (fc *FnCtx) checkPost(st *State, vals []Val, p token.Pos) {
 // This is the callee side of the havoc performed at call sites (applyModifies).
 func (fc *FnCtx) checkFrame(st *State, p token.Pos) {
 	ct := fc.contract
-	if ct.ModAll || fc.lenient || !fc.safetyActive() {
+	if ct.ModAll || ct.FrameAssumed || fc.lenient || !fc.safetyActive() {
 		return
 	}
 	modPaths := map[string]bool{}
